@@ -9,7 +9,7 @@ import "encoding/json"
 // histories on one Expression equal fresh one-shot evaluations.
 
 var c06Exprs = []string{
-	"@", "a", "a[0:2]", "a[1:]", "a[::-1]", "sort(a)", "reverse(a)", "to_array(a)", "merge(b, `{\"k\": 1}`)", "merge(b, b)", "a[*]", "a[]", "a[?@]",
+	"@", "a", "a[0:2]", "a[1:]", "a[::-1]", "sort(a)", "reverse(a)", "to_array(a)", "merge(b, `{\"z\": 1}`)", "merge(b, b)", "a[*]", "a[]", "a[?@]",
 	"`[3, 1, 2]`", "sort(`[3, 1, 2]`)", "`{\"x\": [1]}`.x", "[a, b]", "{p: a, q: b}", "sort_by(a, &@)", "map(&@, a)", "values(b)", "keys(b)", "items(b)",
 	"group_by(c, &k)", "from_items(d)", "zip(a, a)", "not_null(a, b)", "a || b", "a && b", "max_by(c, &k)", "let $v = a in [$v, $v]", "b.*", "*", "join('-', a)",
 	"a[0]", "flatten_me[][]", "a | [0]", "min(a)", "max(a)", "sum(a)", "avg(a)", "a[?@ == `1`]", "c[*].k", "c[?k].k", "c[].k", "to_string(a)", "length(a)",
@@ -37,7 +37,7 @@ func c06Gen() []string {
 			out = append(out, e)
 		}
 	}
-	objs := []string{"b", "`{\"k\": 1}`", "{k: a}", "from_items(d)", "b || `{}`", "merge(b)", "group_by(c, &k)"}
+	objs := []string{"b", "`{\"z\": 1}`", "{k: a}", "from_items(d)", "b || `{}`", "merge(b)", "group_by(c, &k)"}
 	for _, x := range objs {
 		for _, y := range objs {
 			out = append(out, "merge("+x+", "+y+")")
@@ -182,7 +182,7 @@ func c06Pure(exprs []string) {
 		vrtMonitor(true)
 		_, _ = Search("sort(@)", r1)
 		_, _ = Search("reverse(@)", r1)
-		_, _ = Search("merge(@, @)", r1)
+		_, _ = Search("merge(@, `{\"zz\": 2}`)", r1)
 		vrtMonitor(false)
 		vrtAssert(vrtEventCount("sharedwrite") == 0, "querying a result wrote to the document or the compiled expression")
 	}
@@ -224,5 +224,36 @@ func H_C06_entry() {
 	vrtAssert(sameOutcome(r1, err1, r3, err3, false), "MustCompile+Search differs from Search")
 	if err1 != nil {
 		vrtAssert(r1 == nil && r2 == nil, "failed call returns nil")
+	}
+}
+
+// c06Pairs: expressions that differ only inside a quoted token or in layout.
+// Evaluating one must not influence the other (no state keyed by a lossy
+// digest of the text).
+var c06Pairs = [][2]string{
+	{"join(' ', a)", "join('  ', a)"}, {"\"a b\"", "\"a  b\""}, {"'x'", "' x'"}, {"a.b", "a .b"}, {"`\"a b\"`", "`\"a  b\"`"}, {"a == 'A'", "a == 'a'"},
+	{"[a,b]", "[a, b]"}, {"'a\tb'", "'a b'"}, {"\"a\\tb\"", "\"a b\""}, {"a||b", "a || b"}, {"length(a)", "length( a )"}, {"a[0]", "a[ 0 ]"}, {"'a' 'b'", "'a''b'"},
+}
+
+// H_C06_history: the outcome of a call does not depend on which other
+// expressions were compiled or evaluated before (differential against the
+// reference after a warm-up with a near-identical expression).
+func H_C06_history() {
+	vrtSpec(2, 2, 1, "a,b,a b,a  b", smASCII, nfInt, 0)
+	p := c06Pairs[vrtChoose("pair", len(c06Pairs))]
+	first, second := p[0], p[1]
+	if vrtChoose("order", 2) == 1 {
+		first, second = second, first
+	}
+	vrtNote("template:" + first + "  then  " + second)
+	doc := vrtDoc("d", 2, uJSON, uJSON)
+	_, _ = Search(first, doc)
+	_, _ = Compile(first)
+	diffSearch(second, doc, false)
+	e, err := Compile(second)
+	if err == nil {
+		got, gerr := e.Search(doc)
+		want, werr := Search(second, doc)
+		vrtAssert(sameOutcome(got, gerr, want, werr, false), "compiled and one-shot evaluation differ after another expression was used")
 	}
 }
